@@ -68,6 +68,67 @@ pub fn run_case(c: &Case, seed: u64) -> String {
     )
 }
 
+// wire formats and derived parameters (C13, C14, C19): the bytes are the same in every build
+pub fn run_wire(seed: u64) -> Vec<String> {
+    use raptorq::PayloadId;
+    let mut r = Wr(seed ^ 0xC13);
+    let mut out = vec![];
+    let hex = |b: &[u8]| -> String { b.iter().map(|x| format!("{:02x}", x)).collect() };
+    let mut fs: Vec<u64> = vec![1, 255, 256, 65535, 65536, (1 << 24) - 1, 1 << 24, (1 << 32) - 1, 1 << 32, (1 << 32) + 5, 0x0102030405, 0xA501020304, 942574504275, (1 << 39) + 12345];
+    for _ in 0..10 { fs.push(1 + r.below(942574504275)); }
+    for f in fs {
+        // T, Z chosen so that the configuration is valid: Z = 255 blocks of at most 56403 symbols of 65535 bytes
+        let cfg = ObjectTransmissionInformation::new(f, 65535, 255, 1 + (f % 7) as u16, 1);
+        let ser = cfg.serialize();
+        let back = ObjectTransmissionInformation::deserialize(&ser);
+        out.push(format!("oti F={f} ser={} roundtrip={} reser={}", hex(&ser), back == cfg, hex(&back.serialize())));
+    }
+    for esi in [0u32, 1, 255, 256, 65535, 65536, 0x7FFFFF, 0x800000, 0xFFFFFE, 0xFFFFFF, 0x010203] {
+        let sbn = (esi % 251) as u8;
+        let p = PayloadId::new(sbn, esi);
+        let ser = p.serialize();
+        let back = PayloadId::deserialize(&ser);
+        let pkt = EncodingPacket::new(PayloadId::new(sbn, esi), vec![sbn, 1, 2, 3, (esi >> 16) as u8]);
+        let ps = pkt.serialize();
+        out.push(format!("pid sbn={sbn} esi={esi} ser={} roundtrip={} pkt={} pkt_roundtrip={}", hex(&ser), back == p, hex(&ps), EncodingPacket::deserialize(&ps) == pkt));
+    }
+    for (f, mtu) in [(1u64, 1u16), (1000, 8), (10000, 64), (123456, 100), (10_000_000, 1024), (1 << 32, 1400), ((1 << 33) + 77, 9000), (56403 * 65528 * 255, 65535), (56403 * 1024, 1024), (56404 * 1024, 1024)] {
+        let c = ObjectTransmissionInformation::with_defaults(f, mtu);
+        out.push(format!("defaults F={f} mtu={mtu} -> T={} Z={} N={} Al={}", c.symbol_size(), c.source_blocks(), c.sub_blocks(), c.symbol_alignment()));
+    }
+    out
+}
+
+// blocks of several thousand symbols (the sparse back-end with a wide dense tail; long bit-packed rows): only in
+// unchecked builds - checked builds re-verify the solver's matrix in O(L^3)
+pub fn run_large(seed: u64) -> Vec<String> {
+    use raptorq::{SourceBlockDecoder, SourceBlockEncoder};
+    let mut out = vec![];
+    for k in [4000u32, 8000] {
+        let mut r = Wr(seed ^ k as u64);
+        let t = 4u16;
+        let data: Vec<u8> = (0..k as usize * t as usize).map(|_| r.next() as u8).collect();
+        let cfg = ObjectTransmissionInformation::new(data.len() as u64, t, 1, 1, 1);
+        let enc = SourceBlockEncoder::new(0, &cfg, &data);
+        let lost = k / 10;
+        let mut pk: Vec<EncodingPacket> = enc.source_packets().into_iter().filter(|p| p.payload_id().encoding_symbol_id() % 10 != 3).collect();
+        let rep = enc.repair_packets(0, lost + 2);
+        let mut h: u64 = 0xcbf29ce484222325;
+        for p in &rep { fnv(&mut h, &p.serialize()); }
+        // zero overhead first, then two more symbols
+        pk.extend(rep[..lost as usize].iter().cloned());
+        let mut dec = SourceBlockDecoder::new(0, &cfg, data.len() as u64);
+        let o0 = dec.decode(pk);
+        let o2 = if o0.is_some() { o0.clone() } else { dec.decode(rep[lost as usize..].to_vec()) };
+        let ok = |o: &Option<Vec<u8>>| match o { None => "none", Some(b) if b[..] == data[..] => "correct", Some(_) => "WRONG" };
+        out.push(format!("large K={k} T={t} repair_digest={:016x} zero_overhead={} plus_two={}", h, ok(&o0), ok(&o2)));
+    }
+    out
+}
+
 pub fn run(seed: u64, quick: bool) -> Vec<String> {
-    cases(seed, quick).iter().map(|c| run_case(c, seed)).collect()
+    let mut v: Vec<String> = cases(seed, quick).iter().map(|c| run_case(c, seed)).collect();
+    v.extend(run_wire(seed));
+    if !cfg!(debug_assertions) { v.extend(run_large(seed)); }
+    v
 }
